@@ -83,6 +83,46 @@ func (c *c10Case) paramFor(i int) *c10Param {
 	return c.vp
 }
 
+// isOffender: argument a in position i breaks a rule the protocol answers with an ArgError
+// (null without AllowNull, or a type that does not conform to the parameter's).
+func (c *c10Case) isOffender(i int, a cty.Value) bool {
+	p := c.paramFor(i)
+	if p == nil {
+		return false
+	}
+	if a.IsNull() && !p.n {
+		return true
+	}
+	return a.Type() != cty.DynamicPseudoType && !c10Conforms(a.Type(), p.ty)
+}
+
+// checkArgErr judges the index of an ArgError returned for the argument list as.
+func (c *c10Case) checkArgErr(ctx *Ctx, entry string, err error, as []cty.Value, key string) {
+	ae, ok := err.(function.ArgError)
+	if !ok {
+		return
+	}
+	first := -1
+	for i, a := range as {
+		if c.isOffender(i, a) {
+			first = i
+			break
+		}
+	}
+	switch {
+	case ae.Index < 0 || ae.Index >= len(as):
+		ctx.Fail(Failure{Site: "argerror-names-offender", Sig: "argerror-index-out-of-range", What: entry + ": ArgError.Index is not an argument position", Input: key, GoLit: c.goLit(), Outcome: fmt.Sprintf("argerr %d", ae.Index)})
+	case !c.isOffender(ae.Index, as[ae.Index]):
+		sig := "argerror-names-innocent-arg"
+		if c.vp != nil && first >= len(c.params) && ae.Index == first-len(c.params) {
+			// the defect repaired by /repo 1f09d73 (index relative to the variadic tail)
+			sig = "variadic-nonconforming-index-relative-to-tail"
+		}
+		ctx.Fail(Failure{Site: "argerror-names-offender", Sig: sig, What: entry + ": ArgError.Index names an argument that is neither null-without-AllowNull nor non-conforming",
+			Input: key, GoLit: c.goLit(), Outcome: fmt.Sprintf("argerr %d; first offending argument is %d", ae.Index, first)})
+	}
+}
+
 func (c *c10Case) specWire() []string {
 	ps := make([]string, len(c.params))
 	for i, p := range c.params {
@@ -282,6 +322,9 @@ func c10Run(ctx *Ctx, c *c10Case, alsoRT bool) {
 			s = encTy(ty)
 		}
 		ctx.Add("fn.rtfv", c10Answer(c10Outcome(p2, err2, s), &o2), sw[0], sw[1], sw[2], sw[3], argsW)
+		if !p2 {
+			c.checkArgErr(ctx, "ReturnTypeForValues", err2, c.args, key)
+		}
 		if p2 {
 			ctx.Fail(Failure{Site: "panics-become-errors", Sig: "rtfv-go-panic", What: "ReturnTypeForValues let a Go panic escape", Input: key, GoLit: c.goLit(), Outcome: why2})
 		}
@@ -302,6 +345,13 @@ func c10Run(ctx *Ctx, c *c10Case, alsoRT bool) {
 			s = encTy(ty)
 		}
 		ctx.Add("fn.rt", c10Answer(c10Outcome(p3, err2, s), &o3), sw[0], sw[1], sw[2], sw[3], "("+strings.Join(tw, " ")+")")
+		if !p3 {
+			unk := make([]cty.Value, len(tys))
+			for i, t := range tys {
+				unk[i] = cty.UnknownVal(t)
+			}
+			c.checkArgErr(ctx, "ReturnType", err2, unk, key)
+		}
 		if p3 {
 			ctx.Fail(Failure{Site: "panics-become-errors", Sig: "rt-go-panic", What: "ReturnType let a Go panic escape", Input: key, GoLit: c.goLit(), Outcome: why3})
 		}
@@ -325,13 +375,6 @@ func c10Run(ctx *Ctx, c *c10Case, alsoRT bool) {
 	}
 
 	// per-argument classification by the declared contract (only meaningful when the count is right)
-	offender := func(i int) bool {
-		p, a := c.paramFor(i), c.args[i]
-		if a.IsNull() && !p.n {
-			return true
-		}
-		return a.Type() != cty.DynamicPseudoType && !c10Conforms(a.Type(), p.ty)
-	}
 	blocks := func(i int) bool {
 		p, a := c.paramFor(i), c.args[i]
 		return (a.Type() == cty.DynamicPseudoType && !p.d) || (!a.IsKnown() && !p.u)
@@ -403,8 +446,12 @@ func c10Run(ctx *Ctx, c *c10Case, alsoRT bool) {
 	case "panic":
 		switch {
 		case c.refine == "panics" && o.refineSeen > 0:
-			fail("panics-become-errors", "refine-callback-panic-escapes", "a panic raised by the RefineResult callback escapes Call as a Go panic (it is not converted to a PanicError)", why)
-		case c.refine == "notnull" && o.refineSeen > 0:
+			// A RefineResult callback that itself panics is outside the property's quantifier (only the
+			// Type and Impl callbacks are quantified over as panicking): compared with the model, not judged.
+			ctx.Tag("note:refine-callback-panicked")
+		case c.refine == "notnull" && o.refineSeen > 0 && c.tf == "ok" && implRan && c.impl == "ok" && c.implVal.IsNull():
+			// DESIGN §8 #18 (documented obligation of the function author): a refinement is declared, no
+			// callback panicked, and the builder panics because the result contradicts the declaration.
 			fail("panics-become-errors", "refine-builder-panic-escapes", "the result violates the declared refinement (NotNull on a null result): the refinement builder's panic escapes Call as a Go panic", why)
 		default:
 			fail("panics-become-errors", "go-panic", "Call let a Go panic escape", why)
@@ -417,25 +464,10 @@ func c10Run(ctx *Ctx, c *c10Case, alsoRT bool) {
 			fail("outcome-classification", "callbacks-ran-on-count-error", "a callback ran although the argument count was wrong", string(o.order))
 		}
 	case "argerr":
-		idx := err.(function.ArgError).Index
-		switch {
-		case !countOK:
+		if !countOK {
 			fail("argerror-names-offender", "argerror-on-count", "ArgError for a call with the wrong number of arguments", outcome)
-		case idx < 0 || idx >= nArgs:
-			fail("argerror-names-offender", "argerror-index-out-of-range", "ArgError.Index is not an argument position", outcome)
-		case !offender(idx):
-			first := -1
-			for i := range c.args {
-				if offender(i) {
-					first = i
-					break
-				}
-			}
-			sig := "argerror-names-innocent-arg"
-			if c.vp != nil && first >= len(c.params) && idx == first-len(c.params) {
-				sig = "variadic-nonconforming-index-relative-to-tail"
-			}
-			fail("argerror-names-offender", sig, "ArgError.Index names an argument that is neither null-without-AllowNull nor non-conforming", fmt.Sprintf("%s; first offending argument is %d", outcome, first))
+		} else {
+			c.checkArgErr(ctx, "Call", err, c.args, key)
 		}
 		if implRan {
 			fail("impl-only-after-type", "impl-ran-on-argerror", "Impl ran although the call returned an ArgError", string(o.order))
@@ -601,6 +633,17 @@ func runC10(ctx *Ctx) {
 	defImpl := cty.StringVal("r")
 	pickTy := func() cty.Type { return c10Tys[ctx.R.Intn(len(c10Tys))] }
 	cases := 0
+	// Regression, runs first — FIXED DEFECT (/repo 1f09d73; DESIGN §8 #10): the ArgError for a
+	// non-conforming VARIADIC argument carried the index relative to the variadic tail
+	// (Index 1 for argument 2 here; Index 0 for argument 1 through ReturnType).
+	{
+		sp := c10Param{ty: cty.String}
+		vp := c10Param{ty: cty.String}
+		c10Run(ctx, &c10Case{params: []c10Param{sp}, vp: &vp, refine: "none", tf: "ok", tfTy: cty.String, impl: "ok", implVal: cty.StringVal("x"),
+			args: []cty.Value{cty.StringVal("a"), cty.StringVal("b"), cty.True}, how: "regression"}, true)
+		c10Run(ctx, &c10Case{params: []c10Param{sp}, vp: &vp, refine: "none", tf: "ok", tfTy: cty.String, impl: "ok", implVal: cty.StringVal("x"),
+			args: []cty.Value{cty.UnknownVal(cty.String), cty.UnknownVal(cty.Bool)}, how: "regression"}, true)
+	}
 	mk := func(params []c10Param, vp *c10Param, classes []int, how string) *c10Case {
 		c := &c10Case{params: params, vp: vp, refine: "none", tf: "ok", tfTy: defTy, impl: "ok", implVal: defImpl, how: how}
 		for i, cl := range classes {
